@@ -177,6 +177,8 @@ def equilibrium(
         return y - pfunc(y, *params)
 
     method = _get_equilibrium_default_method(method)
+    if isinstance(method, str):
+        method = method.lower()
     fwd_options["method"] = method
     fwd_fcn = pfunc if method in _EQUIL_METHODS else new_fcn
     alg_type = "equilibrium" if method in _EQUIL_METHODS else "rootfinder"
@@ -250,6 +252,8 @@ def minimize(
 
     fwd_options["method"] = _get_minimizer_default_method(method)
     method = fwd_options["method"]
+    if isinstance(method, str):
+        method = method.lower()
 
     # minimization can use rootfinder algorithm, so check if it is actually
     # using the optimization algorithm, not the rootfinder algorithm
